@@ -50,3 +50,14 @@ Definition api_ref_payload := enc_payload_gen.
 Definition api_ref_lzma2 := ser2_gen.
 Definition api_crc32 := crc32_exec.
 Definition api_crc64 := crc64_exec.
+
+(* used by the thorough tier to cross-check the extracted OCaml runner against evaluation inside Coq *)
+Definition verdict_code (o : outcome unit) : N := match o with Done _ => 0 | Failed _ => 1 | Panicked _ => 2 end.
+Fixpoint list_eqb (a b : list N) : bool :=
+  match a, b with
+  | [], [] => true
+  | x :: a', y :: b' => (x =? y) && list_eqb a' b'
+  | _, _ => false
+  end.
+Definition result_agrees (r : result) (v : N) (out : list N) (pos : N) : bool :=
+  (verdict_code (r_verdict r) =? v) && list_eqb (r_out r) out && (r_pos r =? pos).
